@@ -36,10 +36,37 @@ typedef std::vector<unsigned char> Bytes;
 // "malloc fails" is made deterministic: a request of 2^20 bytes or more is refused (null), exactly the
 // model's `allocLimit`.  Everything the reader allocates on the say-so of a length / count / index field
 // of the archive (str::resize, Container::Resize) goes through this interface.
+// A Listener used as the key of a hash array is hashed by its address (`Hash<ScriptVariable>`: `(intptr_t)listener`).
+// So that the bucket of such a key is the same in every process (the `canon` pass, the run, a replay), the harness
+// gives the listener of label L an address with `address % 7 == L % 6 + 1` (never 0): `g_residue` is set around the
+// `new` / `ReadObject()` that creates it.  Tables with listener keys are generated with at most 7 entries, i.e. with
+// 1 or 7 buckets.
+unsigned g_residue = 0;
+std::map<void*, void*> g_shifted;      // address handed out -> address malloc returned
+
 class LimitedMemory : public IMemoryManager {
 public:
-    void* allocate(size_t size) override { return size >= (size_t(1) << 20) ? nullptr : std::malloc(size); }
-    void free(void* ptr) noexcept override { std::free(ptr); }
+    void* allocate(size_t size) override
+    {
+        if (size >= (size_t(1) << 20)) return nullptr;
+        if (g_residue && size >= sizeof(Listener) && size <= sizeof(Listener) + 64) {
+            char* raw = static_cast<char*>(std::malloc(size + 128));
+            if (!raw) return nullptr;
+            const unsigned want = g_residue;
+            g_residue = 0;          // the bookkeeping below allocates too
+            size_t off = 16;
+            while (off < 112 && reinterpret_cast<uintptr_t>(raw + off) % 7 != want) off += 16;
+            g_shifted[raw + off] = raw;
+            return raw + off;
+        }
+        return std::malloc(size);
+    }
+    void free(void* ptr) noexcept override
+    {
+        auto it = g_shifted.find(ptr);
+        if (it != g_shifted.end()) { void* raw = it->second; g_shifted.erase(it); std::free(raw); return; }
+        std::free(ptr);
+    }
 };
 
 enum Kind { KPrim, KRaw, KStr, KPtr, KSafe, KPos, KObj, KVal };
@@ -122,9 +149,11 @@ struct Run {
         if (it != objs.end()) return it->second;
         Listener* o;
         auto c = clsOf.find(lbl);
+        g_residue = (unsigned)(lbl % 6 + 1);
         if (c != clsOf.end() && c->second == "VNode") o = new VNode;
         else if (c != clsOf.end() && c->second == "VNodf") o = new VNodf;
         else o = new Listener;
+        g_residue = 0;
         objs[lbl] = o;
         return o;
     }
@@ -394,10 +423,11 @@ void Run::render(const ScriptVariable& v, const std::vector<size_t>& supply, siz
                 render(e->Value(), supply, next, vs);
                 // every entry must be found again under its key (the table the load built must be usable)
                 const ScriptVariable* found = const_cast<ScriptArrayHolder*>(h)->arrayValue.find(e->Key());
-                if (found != &e->Value()) vs += "!lost";
-                es.emplace_back(ks, vs);
+                es.emplace_back(ks, (found != &e->Value() ? "!" : "") + vs);
             }
         std::sort(es.begin(), es.end());
+        // an entry that is not found under its own key is shown as `lost:<key>`
+        for (auto& e : es) if (!e.second.empty() && e.second[0] == '!') { e.first = "lost:" + e.first; e.second.erase(0, 1); }
         out += "arr " + std::to_string(lbl) + " " + std::to_string(h->refCount) + " " + std::to_string(set.tableLength) + " " +
             std::to_string(set.threshold) + " " + std::to_string(set.tableLengthIndex) + " " + std::to_string(es.size());
         for (auto& e : es) out += " " + e.first + " " + e.second;
@@ -541,6 +571,7 @@ void Run::exec(Archiver& arc, const std::vector<ItemT>& items, std::vector<ItemT
                 g_pending.out = &body;
                 const std::string want(it.bytes.begin(), it.bytes.end());
                 Class* c;
+                g_residue = (unsigned)(it.lbl % 6 + 1);
                 if (it.mode == 1) {
                     if (want == "VNode") c = arc.ReadObject<VNode>();
                     else if (want == "VNodf") c = arc.ReadObject<VNodf>();
@@ -548,6 +579,7 @@ void Run::exec(Archiver& arc, const std::vector<ItemT>& items, std::vector<ItemT
                 } else {
                     c = arc.ReadObject();
                 }
+                g_residue = 0;
                 g_pending = Pending();
                 Listener* l = dynamic_cast<Listener*>(c);
                 auto old = objs.find(it.lbl);
@@ -809,6 +841,7 @@ struct Case {
 // returns "ok <items>" / "err <exception>"; `shortForm`: "ok:<fnv>" / "<exception>"
 std::string readBack(const unsigned char* data, size_t len, bool shortForm, bool sameCtx = false)
 {
+    g_residue = 0;
     // an exact-size heap copy: a read past the end of the archive is an ASan report
     unsigned char* copy = static_cast<unsigned char*>(std::malloc(len ? len : 1));
     if (len) std::memcpy(copy, data, len);
